@@ -195,20 +195,20 @@ pub fn run_c03(ctx: &mut Ctx) {
     let lvl = ctx.cfg_label();
     // public APIs under this worker's level / build configuration
     for v in 0..7 {
-        let n = ctx.count(2_500, 60_000);
+        let n = ctx.count(12_000, 100_000);
         let l = lvl.clone();
         ctx.run(&format!("chacha/{}", refmodels::chacha::VARIANTS[v].name), n, chacha_stream::c01_strategy(v), move |c, i| {
             i.label(format!("configuration {}", l));
             relabel(chacha_stream::c01_check(c, i), "api")
         });
     }
-    let n = ctx.count(6_000, 150_000);
+    let n = ctx.count(40_000, 400_000);
     ctx.run("chacha-guts", n, chacha_guts::c14_strategy(), |c, i| relabel(chacha_guts::c14_check(c, i), "api"));
     for fam in [hashes::Family::Blake, hashes::Family::Jh] {
         let specs = hashes::by_family(fam);
         let names: Vec<String> = specs.iter().map(|s| s.name.clone()).collect();
         let blocks: Vec<usize> = specs.iter().map(|s| s.block).collect();
-        let n = ctx.count(if fam == hashes::Family::Blake { 8_000 } else { 2_500 }, if fam == hashes::Family::Blake { 200_000 } else { 50_000 });
+        let n = ctx.count(if fam == hashes::Family::Blake { 40_000 } else { 6_000 }, if fam == hashes::Family::Blake { 400_000 } else { 60_000 });
         let strat = (0..names.len(), any::<u64>(), any::<u16>(), crate::gen::pattern()).prop_map(move |(h, seed, l, pat)| hashes::ConfCase {
             hash: names[h].clone(),
             msg: crate::gen::Msg { seed, len: (l as usize) % (5 * blocks[h] + 1), pat },
@@ -217,7 +217,7 @@ pub fn run_c03(ctx: &mut Ctx) {
         ctx.run(&format!("digest/{:?}", fam), n, strat, move |c, i| relabel(hashes::conf_check("digest", &s2, c, i), "api"));
     }
     // generic bodies instantiated per Machine (all back ends of this build in one case)
-    let n = ctx.count(6_000, 150_000);
+    let n = ctx.count(15_000, 200_000);
     ctx.run("direct-instantiation", n, direct_strategy(), direct_check);
 }
 
@@ -226,7 +226,7 @@ pub fn run_c03(ctx: &mut Ctx) {
 pub fn run_c20(ctx: &mut Ctx) {
     let cfg = ctx.cfg_label();
     for v in 0..7 {
-        let n = ctx.count(1_500, 40_000);
+        let n = ctx.count(6_000, 60_000);
         let l = cfg.clone();
         ctx.run(&format!("chacha/{}", refmodels::chacha::VARIANTS[v].name), n, chacha_stream::c01_strategy(v), move |c, i| {
             i.label(format!("feature configuration {}", l));
@@ -237,7 +237,7 @@ pub fn run_c20(ctx: &mut Ctx) {
         let specs = if fam == hashes::Family::Skein { hashes::c08_hashes().into_iter().filter(|h| h.family == fam).collect() } else { hashes::by_family(fam) };
         let names: Vec<String> = specs.iter().map(|s| s.name.clone()).collect();
         let blocks: Vec<usize> = specs.iter().map(|s| s.block).collect();
-        let n = ctx.count(2_000, 50_000);
+        let n = ctx.count(5_000, 60_000);
         let strat = (0..names.len(), any::<u64>(), any::<u16>(), crate::gen::pattern()).prop_map(move |(h, seed, l, pat)| hashes::ConfCase {
             hash: names[h].clone(),
             msg: crate::gen::Msg { seed, len: (l as usize) % (5 * blocks[h] + 1), pat },
@@ -245,7 +245,7 @@ pub fn run_c20(ctx: &mut Ctx) {
         let s2 = specs.clone();
         ctx.run(&format!("digest/{:?}", fam), n, strat, move |c, i| relabel(hashes::conf_check("digest", &s2, c, i), "features"));
     }
-    let n = ctx.count(5_000, 100_000);
+    let n = ctx.count(30_000, 300_000);
     ctx.run("threefish", n, crate::props::threefish::tf_strategy(), |c, i| {
         relabel(crate::props::threefish::c09_check(c, i).and_then(|_| crate::props::threefish::c10_check(c, i)), "features")
     });
